@@ -274,19 +274,33 @@ fn strat_cell() -> BoxedStrategy<CellCase> {
 /// positions on the lattice of the very nside under test: centre / vertices of a cell chosen by
 /// ring-boundary class, nudged by 0..2 ulps
 fn strat_own_lattice() -> BoxedStrategy<PosCase> {
-  (strat_cell(), 0usize..5, -2i32..=2, -2i32..=2)
-    .prop_map(|(c, which, n1, n2)| {
+  (strat_cell(), 0usize..9, -2i32..=2, -2i32..=2, (0.0f64..1.0, 1.0f64..15.0, any::<bool>()))
+    .prop_map(|(c, which, n1, n2, (t, u, outward))| {
       let n = c.nside as i64;
       let (xc, yc) = lattice::center_of_ring_index(n, c.h);
-      let (x, y) = match which {
-        0 => (xc, yc),
-        1 => (xc, yc - 1),
-        2 => (xc + 1, yc),
-        3 => (xc, yc + 1),
-        _ => (xc - 1, yc),
+      let (xc, yc) = (xc as f64, yc as f64);
+      let (x, y, class) = match which {
+        0 => (xc, yc, "own_lattice"),
+        1 => (xc, yc - 1.0, "own_lattice"),
+        2 => (xc + 1.0, yc, "own_lattice"),
+        3 => (xc, yc + 1.0, "own_lattice"),
+        4 => (xc - 1.0, yc, "own_lattice"),
+        // a point of one of the four edges, moved towards the centre (or away from it) by 10^-u of
+        // the way: every distance to a cell border between the ulp and the cell size
+        k => {
+          let (ex, ey) = match k {
+            5 => (xc + t, yc - 1.0 + t),
+            6 => (xc + 1.0 - t, yc + t),
+            7 => (xc - t, yc + 1.0 - t),
+            _ => (xc - 1.0 + t, yc - t),
+          };
+          let d = (10.0f64).powf(-u) * if outward { -1.0 } else { 1.0 };
+          (ex + d * (xc - ex), ey + d * (yc - ey), "own_edge_log_distance")
+        }
       };
-      let (lon, la) = geom::unproj_ref(x as f64 / n as f64, y as f64 / n as f64);
-      PosCase { nside: c.nside, pos: Pos::new(geom::nudge(lon, n1), geom::nudge(la, n2), "own_lattice") }
+      let (lon, la) = geom::unproj_ref(x / n as f64, (y / n as f64).max(-2.0).min(2.0));
+      let (n1, n2) = if which >= 5 { (0, 0) } else { (n1, n2) };
+      PosCase { nside: c.nside, pos: Pos::new(geom::nudge(lon, n1), geom::nudge(la, n2), class) }
     })
     .boxed()
 }
